@@ -18,7 +18,7 @@ KERNELS = {
 }
 
 HDR = '''From Coq Require Import String.
-Require Import NDT.Arith.Ops NDT.Arith.OpsFloat NDT.Model.Pipeline NDT.Model.Limit NDT.Gen.Limits NDT.Gen.Guards.
+Require Import NDT.Arith.Ops NDT.Arith.OpsFloat NDT.Arith.OpsCFloat NDT.Model.Pipeline NDT.Model.Limit NDT.Gen.Limits NDT.Gen.Guards.
 From Coq Require Import PrimFloat ZArith List Bool. Import ListNotations.
 Definition TF := 0x1.96993aacc4d21p+3%float.
 Definition THR := 0x1.a36e2eb1c432dp-14%float.
@@ -40,6 +40,15 @@ Definition okRes (c : Z * list float * list float * list float) : bool :=
 (* _call_lim: NaN entries replaced by the limits, in order; every other entry is f's own value, error 0 *)
 Definition okFill (c : list float * list float * list float * list float * list float) : bool :=
   let '(fz, lims, errs, out, oerr) := c in leqf (fill OpsF fz lims) out && leqf (fill_err OpsF fz errs) oerr.
+(* complex estimates (complex z0, radial path): the whole _extrapolate stage in complex arithmetic, tolerance 2^-40; a different
+   selected row is accepted only when the model's penalised errors of the two rows agree to 2^-30 *)
+Definition TOL := 0x1p-40%float.
+Definition okEc (c : list cfloat * list float * list float * (cfloat * float * float * nat)) : bool :=
+  let '(der, hs, rr, (v, e, s, ix)) := c in
+  let '(d1, errs, s1) := extrapolate_c_table OpsCF (c_real TF) (c_real THR) (c_real C1EM8) (c_real 0x1.8p+0%float) der (map c_real hs) (map c_real rr) in
+  let '(v', e', s', ix') := extrapolate_c OpsCF (c_real TF) (c_real THR) (c_real C1EM8) (c_real 0x1.8p+0%float) der (map c_real hs) (map c_real rr) in
+  if Nat.eqb ix ix' then cclose TOL v v' && fclose TOL e (fst e') && feq s (fst s')
+  else fclose 0x1p-30%float (fst (nthA OpsCF errs ix)) (fst (nthA OpsCF errs ix')) && cclose TOL v (nthA OpsCF d1 ix).
 Definition okSign (c : string * Z) : bool := match lim_sign (fst c) with Some s => Z.eqb s (snd c) | None => Z.eqb (snd c) 0 end.
 Definition okTerms (c : Z * Z) : bool := Z.eqb (lim_rich_num_terms (fst c)) (snd c).
 Definition okNum (c : Z * Z) : bool := Z.eqb (cstep_num_steps_of_round (fst c)) (snd c).
@@ -281,6 +290,47 @@ def real_cases(ctx, N):
             ('F', 'okFill', cF, dF, 'Limit.__call__ on an array does not return f\'s own values with the NaN entries replaced by the limits, in order (Model/Limit.v fill / fill_err)')], skipped
 
 
+def clit(z):
+    z = complex(z)
+    return '(%s, %s)' % (flit(z.real), flit(z.imag))
+
+
+def complex_cases(ctx, N):
+    """tolerance tie of _Limit._extrapolate on complex estimates (complex z0, radial path: real steps and real Richardson rule)"""
+    from numdifftools import limits as lim
+    rng = ctx.rng(17)
+    cases, descs = [], []
+    for it in range(N):
+        g = G(rng)
+        z0, method, path, order, ratio = config(rng)
+        z0 = complex(rng.uniform(0, 1), rng.uniform(0.05, 1))
+        kname = list(KERNELS)[it % len(KERNELS)]
+        s = KERNELS[kname]
+        p = int(rng.integers(1, 4))
+        residue = it % 3 == 2
+        f = (lambda z: g(z) / (z - z0) ** p) if residue else (lambda z: g(z) * s(z - z0))
+        opts = dict(method=method, step_ratio=ratio, full_output=True)
+        L = lim.Residue(f, pole_order=p, order=max(order, p + 1), **opts) if residue else lim.Limit(f, order=order, **opts)
+        desc = {'class': 'Residue' if residue else 'Limit', 'g': g.show(), 'kernel': None if residue else kname, 'pole_order': p if residue else None, 'z0': repr(z0),
+                'method': method, 'order': L.order, 'step_ratio': ratio}
+        try:
+            with pipe.Capture() as cap, np.errstate(all='ignore'), warnings.catch_warnings():
+                warnings.simplefilter('ignore')
+                val, info = L.limit(z0)
+        except Exception as ex:   # noqa
+            ctx.brk('correspondence', '%s raised %r' % (desc['class'], ex), desc)
+            continue
+        rec = cap.rec
+        der, hs, rr = rec.get('ex_results'), rec.get('ex_steps'), rec.get('rr', [None])[-1]
+        if der is None or not np.iscomplexobj(der) or np.iscomplexobj(hs) or np.iscomplexobj(rr) or not np.isfinite(der).all() or np.max(np.abs(der)) > 1e150:
+            continue
+        v, e, st, ix = np.ravel(val)[0], float(np.ravel(info.error_estimate)[0]), np.ravel(info.final_step)[0], int(np.ravel(info.index)[0])
+        cases.append('([%s], %s, %s, (%s, %s, %s, %d%%nat))' % ('; '.join(clit(t) for t in der[:, 0]), flist(hs[:, 0]), flist(rr), clit(v), flit(e), flit(float(np.real(st))), ix))
+        descs.append(dict(desc, value=repr(complex(v)), error_estimate=e))
+        ctx.count(1, ('tie-complex', desc['class'], method))
+    return [('C', 'okEc', cases, descs, 'the value / error estimate / final step / selected row of _Limit._extrapolate on complex estimates differ (beyond 2^-40) from Model/Pipeline.v extrapolate_c in complex arithmetic')]
+
+
 def translator_cases(ctx):
     """the generated definitions of Gen/Limits.v against the running code"""
     from numdifftools import limits as lim
@@ -341,6 +391,7 @@ def translator_cases(ctx):
 def run(ctx):
     proof_stage(ctx, 'Props/C18.v')
     groups, skipped = real_cases(ctx, ctx.n(150, 1500))
+    groups = groups + complex_cases(ctx, ctx.n(90, 900))
     items, index = [], {}
     for tag, ok, cases, descs, what in groups:
         for s in range(0, len(cases), 150):
@@ -371,7 +422,7 @@ def run(ctx):
     ctx.assumptions += ['PARTIAL: proved = finite entries unchanged (any arithmetic), exactness on polynomial-in-the-step sequences and on poles g/(z - z0)^p with polynomial g (R), sign table, rule, enough steps; '
                         'NOT proved = the error bound for the listed kernels and non-polynomial g, and the complex-valued pipeline (lexicographic percentiles): explored by the sweep against exact values g(z0), '
                         'bound %g x estimate + %g x max(1, |exact|) calibrated on the repaired tree' % (K, FLOOR),
-                        'bit-exact tie on real data only (real z0, radial path); complex z0 / spiral paths are exercised at the property level only',
+                        'bit-exact tie on real data (real z0, radial path); complex z0 with radial paths: the _extrapolate stage is compared in complex arithmetic with tolerance 2^-40 (numpy fuses multiply-adds in complex products, |z| is hypot), a different selected row being accepted only on a tie of the penalised errors to 2^-30; spiral paths (complex step ratio, complex Richardson rule) are exercised at the property level only',
                         'Residue with pole_order 3: h**3 is computed by pow() in numpy and by repeated multiplication in the model; compared with relative tolerance 2^-49']
     return ctx.finish(level='proof', checker_cmd='make -C coq Props/C18.vo + coqc build/cases/C18_*.v',
                       rule='tie: Limit / Residue x 5 kernels x g family x above/below/forward/backward x order 1..8 x ratio 2..16 x default/user step x scalar/array z (real data); '
